@@ -6,14 +6,23 @@ scratch copy of /repo's current sources and executed: the harness body now calls
 values.  Only if the native run fails the same way is the counterexample reported as a VIOLATION.
 """
 import os, re, json, subprocess, time
-from . import ws, kani
+from . import ws, kani, model
 
 VERIF = ws.VERIF
 
 
-def _kani_print(h):
-    cmd = ["cargo", "kani", "-p", h.pkg, "-Z", "stubbing", "-Z", "concrete-playback", "--concrete-playback=print",
-           "--harness", h.path, "--exact"]
+def _feat_args(slc):
+    return ["--no-default-features", "--features", slc] if slc else []
+
+
+def _install(prop, crate, relp, hname, htext, unwind, solver, prelude, extra):
+    h = model.H(hname, htext, (crate, relp), unwind=unwind, solver=solver)
+    ws.set_hooks(crate, {relp: model.module_text(prop, [h], prelude, extra)})
+
+
+def _kani_print(pkg, path, slc):
+    cmd = ["cargo", "kani", "-p", pkg, "-Z", "stubbing", "-Z", "concrete-playback", "--concrete-playback=print",
+           "--harness", path, "--exact"] + _feat_args(slc)
     env = dict(os.environ)
     env.update(kani.KANI_ENV)
     try:
@@ -27,24 +36,26 @@ def _kani_print(h):
     return tests, ""
 
 
-def confirm(prop, h, unknown, result, tier):
+def confirm(prop, h, unknown, result, tier, plan):
     """-> (replay_path, reproduced?, detail)"""
     t0 = time.time()
     rdir = os.path.join(VERIF, "replay", prop)
     os.makedirs(rdir, exist_ok=True)
     rpath = os.path.join(rdir, h.name + ".json")
-    tests, err = _kani_print(h)
-    rec = {"property": prop, "harness": h.path, "package": h.pkg, "where": h.where, "key": h.key, "domain": h.domain,
-           "desc": h.desc, "tags": [t for t, _ in unknown], "details": [d for _, d in unknown],
-           "harness_source": h.text, "playback_tests": [], "native": []}
+    crate, relp = h.where
+    prelude = plan.get("incrate_prelude", {}).get((crate, relp), "")
+    _install(prop, crate, relp, h.name, h.text, h.unwind, h.solver, prelude, "")
+    tests, err = _kani_print(h.pkg, h.path, h.slice)
+    rec = {"property": prop, "harness": h.path, "harness_name": h.name, "package": h.pkg, "where": [crate, relp], "slice": h.slice,
+           "key": h.key, "domain": h.domain, "desc": h.desc, "tags": [t for t, _ in unknown], "details": [d for _, d in unknown],
+           "harness_source": h.text, "unwind": h.unwind, "solver": h.solver, "prelude": prelude, "playback_tests": [], "native": []}
     if not tests:
         rec["error"] = err
         with open(rpath, "w") as f:
             json.dump(rec, f, indent=1)
-        # UB-class failures have no native reproduction by nature
         return rpath, False, err
     rec["playback_tests"] = [t for t, _ in tests]
-    ok, detail = run_native(h.pkg, h.where, h.path, tests, [t for t, _ in unknown], rec)
+    ok, detail = run_native(prop, rec, tests)
     rec["reproduced"] = ok
     rec["wall_s"] = round(time.time() - t0, 1)
     with open(rpath, "w") as f:
@@ -52,50 +63,21 @@ def confirm(prop, h, unknown, result, tier):
     return rpath, ok, detail
 
 
-def run_native(pkg, where, hpath, tests, tags, rec):
-    """Write the playback tests next to the harness and run them with `cargo kani playback` (dev, then release)."""
-    modpath = hpath.rsplit("::", 1)[0]
-    fname = hpath.rsplit("::", 1)[1]
-    body = ""
-    names = []
-    for text, name in tests:
-        names.append(name)
-        body += text + "\n"
-    pb = os.path.join(ws.GEN, "playback_current.rs")
-    if where == "vh":
-        # playback module inside the property's module file is not possible without editing it; put it in its own module
-        prop_mod = modpath.split("::")[0]
-        text = "#![allow(warnings)]\nuse crate::%s::*;\n%s" % (prop_mod, body)
-        ws.write_if_changed(os.path.join(ws.WS, "vh", "src", "playback.rs"), text)
-        lib = os.path.join(ws.WS, "vh", "src", "lib.rs")
-        with open(lib) as f:
-            l = f.read()
-        if "mod playback;" not in l:
-            ws.write_if_changed(lib, l + "#[cfg(kani)] mod playback;\n")
-    else:
-        # in-crate: the generated module file gets the tests appended inside the module
-        crate, relp = where
-        gen = None
-        for fn in os.listdir(ws.GEN):
-            if fn.startswith(modpath.split("::")[-1].replace("verif_", "") + "__" + crate + "__"):
-                with open(os.path.join(ws.GEN, fn)) as f:
-                    if ("pub fn %s()" % fname) in f.read():
-                        gen = os.path.join(ws.GEN, fn)
-        if not gen:
-            return False, "generated file for %s not found" % hpath
-        with open(gen) as f:
-            t = f.read()
-        t = re.sub(r"\n// PLAYBACK-BEGIN.*?// PLAYBACK-END\n", "\n", t, flags=re.S)
-        idx = t.rstrip().rfind("}")
-        t = t[:idx] + "\n// PLAYBACK-BEGIN\n" + body + "// PLAYBACK-END\n}\n"
-        ws.write_if_changed(gen, t)
+def run_native(prop, rec, tests):
+    """Put the playback tests next to the harness and run them with `cargo kani playback` (dev, then release)."""
+    crate, relp = rec["where"]
+    body = "".join(text + "\n" for text, name in tests)
+    names = [name for text, name in tests]
+    _install(prop, crate, relp, rec["harness_name"], rec["harness_source"], rec.get("unwind"), rec.get("solver"),
+             rec.get("prelude", ""), body)
     env = dict(os.environ)
     env.update(kani.KANI_ENV)
+    tags = rec["tags"]
     all_ok = False
     details = []
     for profile in ("dev", "release"):
         for name in names:
-            cmd = ["cargo", "kani", "playback", "-Z", "concrete-playback", "-p", pkg]
+            cmd = ["cargo", "kani", "playback", "-Z", "concrete-playback", "-p", rec["package"]] + _feat_args(rec.get("slice"))
             if profile == "release":
                 cmd.append("--release")
             cmd += ["--", name]
@@ -106,7 +88,8 @@ def run_native(pkg, where, hpath, tests, tags, rec):
                 continue
             out = p.stdout + p.stderr
             ran = re.search(r"running (\d+) test", out)
-            failed = "panicked at" in out or re.search(r"test result: FAILED", out)
+            failed = ("panicked at" in out or re.search(r"test result: FAILED", out) or "overflowed its stack" in out
+                      or "SIGABRT" in out or "SIGSEGV" in out)
             hit = [t for t in tags if t.startswith("VP:") and t in out]
             rec["native"].append({"profile": profile, "test": name, "rc": p.returncode,
                                   "panicked": bool(failed), "tags_seen": hit, "tail": out[-1500:]})
@@ -123,17 +106,16 @@ def run_native(pkg, where, hpath, tests, tags, rec):
 def replay_file(path):
     with open(path) as f:
         rec = json.load(f)
-    where = rec["where"]
-    if isinstance(where, list):
-        where = tuple(where)
     tests = [(t, re.search(r"fn\s+(kani_concrete_playback_\w+)", t).group(1)) for t in rec.get("playback_tests", [])]
     if not tests:
         print("no playback test recorded in", path)
         return 2
-    rec2 = {"native": []}
-    ok, detail = run_native(rec["package"], where, rec["harness"], tests, rec["tags"], rec2)
+    ws.lock()
+    ws.sync()
+    rec["native"] = []
+    ok, detail = run_native(rec["property"], rec, tests)
     print(detail)
-    for n in rec2["native"]:
+    for n in rec["native"]:
         print("---", n["profile"], n["test"], "panicked" if n["panicked"] else "ok")
         print(n["tail"][-600:])
     return 1 if ok else 0
